@@ -95,6 +95,44 @@ pub fn datafrag_msg(cc: &CacheChange, reader: EntityId, frag: u32, frag_size: u1
   )
 }
 
+/// One DATAFRAG submessage carrying the `n` consecutive fragments `first .. first+n` (legal RTPS, other
+/// vendors send it; this implementation's own Writer always sends one fragment per submessage).  Built from
+/// the Writer's own single-fragment submessages: same fields, `fragmentsInSubmessage = n`, payloads joined.
+pub fn datafrag_run_msg(cc: &CacheChange, reader: EntityId, first: u32, n: u32, frag_size: u16, src_ts: Option<u64>) -> Vec<u8> {
+  use crate::rtps::{Submessage, SubmessageBody};
+  use crate::messages::submessages::submessages::{SubmessageHeader, SubmessageKind, WriterSubmessage};
+  let w = cc.writer_guid;
+  let mut joined: Vec<u8> = vec![];
+  let mut head = None;
+  for f in first..first + n {
+    let m = MessageBuilder::new()
+      .data_frag_msg(cc, reader, w, FragmentNumber::new(f), frag_size, sample_size(cc) as u32, LE, None)
+      .add_header_and_build(w.prefix);
+    for sm in m.submessages {
+      if let SubmessageBody::Writer(WriterSubmessage::DataFrag(df, flags)) = sm.body {
+        joined.extend_from_slice(&df.serialized_payload);
+        if head.is_none() {
+          head = Some((df, flags));
+        }
+      }
+    }
+  }
+  let (mut df, flags) = head.expect("MACHINERY: no DATAFRAG built");
+  df.fragments_in_submessage = n as u16;
+  df.serialized_payload = Bytes::from(joined);
+  let mut b = MessageBuilder::new();
+  if let Some(t) = src_ts {
+    b = b.ts_msg(LE, Some(Timestamp::from_ticks(t)));
+  }
+  let mut m = b.add_header_and_build(w.prefix);
+  m.add_submessage(Submessage {
+    header: SubmessageHeader { kind: SubmessageKind::DATA_FRAG, flags: flags.bits(), content_length: df.len_serialized() as u16 },
+    body: SubmessageBody::Writer(WriterSubmessage::DataFrag(df, flags)),
+    original_bytes: None,
+  });
+  to_bytes(&m)
+}
+
 pub fn heartbeat_msg(w: GUID, reader: EntityId, first: i64, last: i64, count: i32, fin: bool) -> Vec<u8> {
   to_bytes(
     &MessageBuilder::new()
